@@ -77,6 +77,7 @@ Record opts := mkOpts {
 (* per data disk, what the scan will count (scan.c counters) *)
 Record diskscan := mkDS {
   ds_equal : N; ds_move : N; ds_restore : N; ds_remove : N; ds_change : N;
+  ds_insert : N; ds_copy : N;   (* new files; new or rewritten files recognised as copies of a file of some disk: NOT inputs of the rule *)
   ds_zero : bool      (* a recorded file of non-zero size is found, under the same name, as a regular file of size 0 *)
 }.
 
